@@ -133,7 +133,7 @@ impl<'a> Bisim<'a> {
             CHead::Ident(name) => {
                 return div("free-param", trail, format!("bare identifier `{name}` in a closed type position"))
             }
-            CHead::Other(_) => {
+            CHead::Other(..) => {
                 self.opaque += 1;
                 return Ok(());
             }
